@@ -7,6 +7,7 @@ _MODELLED = [
     "pkg/pool/peer.go: generateAvailableIPs, allocateLocal, releaseLocal, Get, Stats on a single-node PeerPool, reached through the Go API and through the peer HTTP API handlers (handleAllocate / handleRelease / handleGet / handleStatus) with plain and circuit-style subscriber IDs",
     "pkg/allocator/distributed.go (via Model/DistAlloc.v of C12): Allocate (rollback on Put failure), Release (Delete first), Renew, Get, Stats, AdvanceEpoch, Start/loadAllocations",
     "pkg/dhcpv6/server.go Server (stream srv6, Model/Srv6Pool.v): handleSolicit (rapid commit / buildAdvertise), handleRequest (server-id), handleRenew / handleRebind (NoBinding), handleRelease, handleDecline, buildReply lease bookkeeping, over both legacy pools or either one",
+    "pkg/pool/peer.go cluster (stream peers, C05 only, Model/PeerPools.v): Allocate / Release routed by getHealthyOwner over the rendezvous ranking and the calling node's health map, Get by the static owner, forwarded calls served by the owner's handlers, per-node Stats",
     "pkg/nexus/client.go: AllocateIPForSubscriber, allocateFromPool (FNV-1a mod hosts, byte adds, unmasked base), ReleaseSubscriberIP, LookupSubscriberIP",
 ]
 _ASSUME = [
@@ -21,7 +22,7 @@ _ASSUME = [
 ]
 SPEC = {
     "props": "Props/C01.v",
-    "check_vo": ["Model/PoolCheck.vo", "Model/DistPoolCheck.vo", "Model/Srv6PoolCheck.vo"],
+    "check_vo": ["Model/PoolCheck.vo", "Model/DistPoolCheck.vo", "Model/Srv6PoolCheck.vo", "Model/PeerPoolsCheck.vo"],
     "driver": "c01",
     "driver_args": ["-prop", "C01"],
     "driver_timeout": 2400,
